@@ -98,3 +98,28 @@ void bad_alias_rw__sign(bn_t c, const bn_t a, const bn_t b) {
 	bn_trim(c);
 	bn_free(t);
 }
+
+/* GROW-CLEAR: the clearing loop stops one digit early */
+void bad_grow_clear__short_loop(bn_t a, int d) {
+	bn_grow(a, d + 1);
+	if ((d + 1) > a->used) {
+		for (int i = a->used; i < d; i++) {
+			a->dp[i] = 0;
+		}
+		a->used = d + 1;
+	}
+	a->dp[d] |= 1;
+	bn_trim(a);
+}
+
+void ok_grow_clear__full_loop(bn_t a, int d) {
+	bn_grow(a, d + 1);
+	if ((d + 1) > a->used) {
+		for (int i = a->used; i <= d; i++) {
+			a->dp[i] = 0;
+		}
+		a->used = d + 1;
+	}
+	a->dp[d] |= 1;
+	bn_trim(a);
+}
